@@ -173,4 +173,30 @@ theorem src_construct_eq_model (H : Bytes → Bytes) (kind : Int) (bits : Bits) 
     generalize List.foldlM (hashStep H kind bits refs mask _) _ _ = r
     cases r <;> simp
 
+/-! ### whole trees: the regenerated constructor applied bottom-up -/
+
+mutual
+  /-- what the REGENERATED `Cell.__init__` computes for a tree of cells, children first (`none` = some constructor raises) -/
+  def srcInfo (H : Bytes → Bytes) : Cell → Option CellInfo
+    | .mk kind bits refs => do
+      let rs ← srcInfos H refs
+      init H bits rs kind
+  def srcInfos (H : Bytes → Bytes) : List Cell → Option (List CellInfo)
+    | [] => some []
+    | c :: cs => do
+      let i ← srcInfo H c
+      let is ← srcInfos H cs
+      pure (i :: is)
+end
+
+mutual
+  theorem srcInfo_eq (H : Bytes → Bytes) : ∀ c : Cell, srcInfo H c = Cell.info H c
+    | .mk kind bits refs => by
+      rw [srcInfo, Cell.info, srcInfos_eq H refs]
+      simp only [src_construct_eq_model]
+  theorem srcInfos_eq (H : Bytes → Bytes) : ∀ cs : List Cell, srcInfos H cs = Cell.infos H cs
+    | [] => by rw [srcInfos, Cell.infos]
+    | c :: cs => by rw [srcInfos, Cell.infos, srcInfo_eq H c, srcInfos_eq H cs]
+end
+
 end TonVerif.Proofs.SrcCellCtor
